@@ -63,7 +63,7 @@ def envs(draw, min_scalars=1, max_scalars=3, max_vectors=2, max_matrices=1, max_
         c = r if sym else draw(st.integers(1, max_mat))
         env["matrices"].append(dict(name=n, r=r, c=c, sym=sym, **bnd()))
     for n in pnames:
-        env["params"].append(dict(name=n, value=draw(st.sampled_from([0.5, 1.0, 2.0, -1.5, 3.0]))))
+        env["params"].append(dict(name=n, value=draw(st.sampled_from([0.5, 1.0, 2.0, -1.5, 3.0, 0.0, 1.0]))))
     return env
 
 
@@ -219,6 +219,9 @@ class G:
             base = self.S(depth - 1)
             if self.is_constant_only(base):
                 base = self.var_leaf()
+            if self.draw(st.integers(0, 5)) == 0:
+                # nested power with an even inner exponent: (x**2)**1.5 is defined for negative x too
+                base = ["bin", "**", self.var_leaf(), ["const", "pyint", self.draw(st.sampled_from([2, 2, 4]))]]
             if self.cfg.general_pow and self.draw(st.integers(0, 3)) == 0:
                 ex = self.S(min(depth - 1, 1))
             else:
@@ -484,6 +487,9 @@ class G:
             cs = list(make_slice(self.draw, cc, self.draw(st.integers(1, cc))))
             return ["msub", b, rs, cs]
         c.append((2, sub))
+        if m.get("sym") and m["r"] >= 3:
+            # a square OFF-diagonal block of a symmetric matrix: it is not symmetric itself
+            c.append((2, lambda: ["msub", base if self.draw(st.booleans()) else ["T", base], [0, 2, None], [1, 3, None]]))
         if "expr" in classes and depth > 0:
             c.append((4, lambda: self.mbin(depth)))
             c.append((1, lambda: ["mneg", self.M(depth - 1)]))
